@@ -18,6 +18,23 @@ if SRC not in sys.path:
     sys.path.insert(0, SRC)  # the tree under verification (a scratch copy when testing the machinery)
 
 
+def _spec_digest():
+    """Digest of everything a formula's meaning depends on besides its own text: the contract files (recursive specification functions are
+    referred to by name) and the generator itself.  Part of every cache key: editing any of these files empties the cache in effect."""
+    import glob
+    import hashlib
+
+    root = os.path.dirname(os.path.dirname(os.path.abspath(__file__)))
+    h = hashlib.sha256()
+    for f in sorted(glob.glob(os.path.join(root, "contracts", "*.py")) + glob.glob(os.path.join(root, "pyvc", "*.py"))):
+        h.update(f.encode())
+        h.update(open(f, "rb").read())
+    return h.digest()
+
+
+SPEC_DIGEST = _spec_digest()
+
+
 def load_contracts():
     import pkgutil
 
@@ -80,6 +97,11 @@ def generate(qualnames, tier="quick", exclude=(), carves=()):
         t0 = time.time()
         ex = None
         try:
+            from . import exec as _exec_mod
+            from . import values as _values_mod
+
+            _values_mod._counter[0] = 0  # fresh-symbol numbering restarts per function: the obligations of a function do not depend on which other
+            _exec_mod._idc[0] = 0        # functions were generated before it (stable names, stable cache keys)
             ex = Exec(q, c, tier)
             ex.carves = list(carves)
             obs = ex.run()
@@ -106,7 +128,14 @@ def generate(qualnames, tier="quick", exclude=(), carves=()):
             info[q] = {"status": "anchor-mismatch", "reason": str(e)}
         except Exception as e:  # noqa: BLE001
             info[q] = {"status": "error", "reason": f"{type(e).__name__}: {e}", "trace": traceback.format_exc()}
-    return obligations, info
+    seen_lemma, uniq = set(), []
+    for o in obligations:  # a lemma used by several functions (or by another lemma) is proved once
+        if o.kind == "lemma":
+            if o.name in seen_lemma:
+                continue
+            seen_lemma.add(o.name)
+        uniq.append(o)
+    return uniq, info
 
 
 def run(qualnames, timeout_s=10.0, seed=0, verbose=False):
